@@ -81,7 +81,7 @@ var all = map[string]*runner.Spec{
 			"sort.Sort is left real: it is deterministic for a given input order",
 			"the instrumenter's map-range rewrite preserves semantics (guarded by running the repository's own v2 tests against the instrumented copy in the self-test)",
 		},
-		QuickRuns: 900, ThorRuns: 40000, QuickCap: 420, ThorCap: 2400,
+		QuickRuns: 1500, ThorRuns: 40000, QuickCap: 420, ThorCap: 2400,
 		TestPkgs:     []string{"github.com/google/licenseclassifier/v2"},
 		PlainHarness: true,
 		Instrument: func(sc *runner.Scratch) error {
